@@ -18,16 +18,27 @@ pub struct CountWaker {
     pub wakes_b: AtomicU64,
     /// Live `WakerHandle`s over this block (each holds two references).
     handles: AtomicUsize,
+    /// Process-wide sequence number of the latest wake through either vtable
+    /// (0 = never): the order in which the code under test woke wakers.
+    pub last_seq: AtomicU64,
+}
+
+static WAKE_SEQ: AtomicU64 = AtomicU64::new(1);
+
+fn stamp(cell: &CountWaker) {
+    cell.last_seq.store(WAKE_SEQ.fetch_add(1, Ordering::SeqCst), Ordering::SeqCst);
 }
 
 impl Wake for CountWaker {
     fn wake(self: Arc<Self>) {
         self.wakes.fetch_add(1, Ordering::SeqCst);
+        stamp(&self);
         // An executor thread parked (under the baton scheduler) for this task.
         crate::sched::notify(crate::sched::Reason::Token(Arc::as_ptr(&self) as u64));
     }
     fn wake_by_ref(self: &Arc<Self>) {
         self.wakes.fetch_add(1, Ordering::SeqCst);
+        stamp(self);
         crate::sched::notify(crate::sched::Reason::Token(Arc::as_ptr(self) as u64));
     }
 }
@@ -40,12 +51,14 @@ unsafe fn b_clone(data: *const ()) -> RawWaker {
 unsafe fn b_wake(data: *const ()) {
     let cell = unsafe { Arc::from_raw(data.cast::<CountWaker>()) };
     cell.wakes_b.fetch_add(1, Ordering::SeqCst);
+    stamp(&cell);
     crate::sched::notify(crate::sched::Reason::Token(Arc::as_ptr(&cell) as u64));
 }
 
 unsafe fn b_wake_by_ref(data: *const ()) {
     let cell = unsafe { &*data.cast::<CountWaker>() };
     cell.wakes_b.fetch_add(1, Ordering::SeqCst);
+    stamp(cell);
     crate::sched::notify(crate::sched::Reason::Token(data as u64));
 }
 
@@ -76,7 +89,7 @@ impl Drop for WakerHandle {
 
 impl WakerHandle {
     pub fn new() -> WakerHandle {
-        let cell = Arc::new(CountWaker { wakes: AtomicU64::new(0), wakes_b: AtomicU64::new(0), handles: AtomicUsize::new(1) });
+        let cell = Arc::new(CountWaker { wakes: AtomicU64::new(0), wakes_b: AtomicU64::new(0), handles: AtomicUsize::new(1), last_seq: AtomicU64::new(0) });
         let waker = Waker::from(cell.clone());
         WakerHandle { cell, waker, side_b: false }
     }
@@ -102,6 +115,10 @@ impl WakerHandle {
     }
     pub fn wakes(&self) -> u64 {
         if self.side_b { self.cell.wakes_b.load(Ordering::SeqCst) } else { self.cell.wakes.load(Ordering::SeqCst) }
+    }
+    /// Sequence number of the latest wake of this block (0 = never).
+    pub fn last_wake_seq(&self) -> u64 {
+        self.cell.last_seq.load(Ordering::SeqCst)
     }
     /// Number of clones of the waker held by others (the tested code).
     pub fn foreign_refs(&self) -> usize {
